@@ -7,4 +7,4 @@ rel() { case $1 in
  C07) echo c07 c01;; C08) echo c08 c01 c16;; C09) echo c09 c11;; C10) echo c10 c09 c17;; C11) echo c11 c10;; C12) echo c12;;
  C13) echo c13 c01;; C14) echo c14 c12;; C15) echo c15 c08;; C16) echo c16 c08;; C17) echo c17 c10 c20;; C18) echo c18 c01;;
  C19) echo c19;; C20) echo c20 c17;; esac; }
-for d in seeded/C*-${SEEDSET:-*}; do n=$(basename $d); echo "$n $(rel ${n%%-*})"; done | xargs -P 3 -L1 sh -c 'tools/seedrun.sh seeded/$0 '$tier' "$@"'
+for d in seeded/C*-${SEEDSET:-*}; do n=$(basename $d); echo "$n $(rel ${n%%-*})"; done | xargs -P ${SEEDPAR:-3} -L1 sh -c 'tools/seedrun.sh seeded/$0 '$tier' "$@"'
